@@ -46,6 +46,15 @@ def run(c):
         if rng.random() < (0.25 if not thorough else 0.1):
             for v in hdr_variants(g["m"], g["inp"]):
                 cases.append(dict(k="pured", entry="plain", inp=v))
+    # every message's minimal instance and every proper prefix of it with the header octets routing ignores at their reserved /
+    # extreme values (PTI 255, PDU session identity 255, spare half octet 15): accepted or rejected, the input stays as it was
+    for t in TABLES:
+        if t["family"] == "ENV": continue
+        b = plain_minimal(t["name"])
+        vs = [b[:1] + [0xFF] + b[2:], b[:1] + [0xF0] + b[2:]] if t["family"] == "GMM" else [b[:2] + [0xFF] + b[3:], b[:1] + [0xFF, 0xFF] + b[3:], b[:1] + [0x00, 0xFF] + b[3:]]
+        for v in vs:
+            for k in range(3, len(v) + 1):
+                if k <= 40 or k == len(v): cases.append(dict(k="pured", entry="plain", inp=v[:k]))
     for m, (b0, singles) in sorted(singles_by_message(gen).items()):   # an unknown identifier, THEN known elements (every message)
         u = unknown_octet(m)
         for e in sorted(singles, key=len)[:3] + sorted(singles, key=len)[-1:]:
